@@ -23,7 +23,7 @@ COMMON_ASSUME = [
 
 prop("C10", True,
      "property-based testing (rapid): generated Parser event streams vs. a reference tree builder + Cursor-contract invariants; child process under a stack cap for the depth-bounded-stack clause",
-     "Generated search: contract-conforming event streams (nesting, prefix rebinding and override, surplus end events, parser errors) are replayed through a scripted parser.Parser into store.CreateInMemory; the resulting tree is walked in parallel with the harness's own model of the stream (structure, values, in-scope namespace sets per element; occasionally one element with 33-40 children, 3-15 attributes or 5-13 further namespace declarations next to a default namespace and its undeclaration) and the Cursor contract is asserted over a full traversal (Pos unique/increasing in document order, Parent() of every listed cursor, namespace cursors owned per element). Large flat streams are built in a child process whose goroutine stack is capped.",
+     "Generated search: contract-conforming event streams (nesting, prefix rebinding and override, surplus end events, parser errors) are replayed through a scripted parser.Parser into store.CreateInMemory; the resulting tree is walked in parallel with the harness's own model of the stream (structure, values, in-scope namespace sets per element; occasionally one element with 33-40 children, 3-15 attributes or 5-13 further namespace declarations next to a default namespace and its undeclaration) and the Cursor contract is asserted over a full traversal (Pos unique/increasing in document order, Parent() of every listed cursor, namespace cursors owned per element). The scripted Parser's node types are not comparable (a == on them panics) and the xml prefix may be declared twice on one element. Large flat streams are built in a child process whose goroutine stack is capped.",
      "Trusts the harness's event-stream model (xmodel.Build) as the meaning of the documented Parser contract; the stack clause is decided for the stated (events, depth) grid only.",
      "5.10",
      "cases = rapid-generated event streams (documents of depth <= 5 with namespaces, attributes, comments, PIs, adjacent text, forests; optional surplus top-level end events; optional parser error at a drawn position). Non-trivial = the stream has an inherited prefix overridden further down, or a surplus end event, or >= 3 levels of nesting; distinct by the full event list.",
@@ -33,7 +33,12 @@ EVAL_NOTE = ("Trusts the harness's reference evaluator xref (XPath 1.0 sections 
              "harness's own document model; no code shared with xsel; it evaluates generated ASTs, never expression text) and "
              "the locator's structural node identity. Open known findings exclude exactly the named behaviour. One differential "
              "case in three also goes through the ExecAsString/ExecAsNumber/ExecAsNodeset helpers, which must equal the XPath "
-             "conversions of the same result.")
+             "conversions of the same result; one in four passes the bindings as caller-owned maps through a ContextApply of its own "
+             "(the maps must be unchanged afterwards); one in seven (without node-set variables, documents of <= 60 nodes) starts from a "
+             "user-written Cursor over the same tree (fresh objects per call, an uncomparable value type, or positions beyond 32 bits); "
+             "one in eleven is preceded by another query that binds user functions under every core function's name, a prefix and a "
+             "variable, one in five by a rejected BuildExpr. One document in 100 is a size-stress document (a chain 33-130 elements deep "
+             "or 65-257 namespace bindings in scope with late overrides).")
 
 prop("C01", True,
      "property-based testing (rapid): differential against a reference XPath evaluator over generated documents x every context node x all 13 axes, plus implementation-only partition/duality/root laws",
@@ -64,7 +69,7 @@ prop("C05", True,
      "cases = (left operand, operator, right operand). Non-trivial = an operand is a node-set of size != 1, a NaN, a whitespace-padded numeral, or the pair orders differently numerically and lexicographically; distinct by (operator, both operand values). The matrix part is exhaustive over the stated pool (noted in evidence), the random part is sampled.")
 prop("C06", True,
      "property-based testing (rapid): differential of arithmetic and numeric functions against IEEE-754 reference arithmetic; any error is a violation",
-     "Generated search: pairs of doubles (rapid.Float64 mixed with a boundary pool: non-integers, negatives, zeros, |x|<1, |x|>2^63, ties, NaN, infinities) under + - * div mod, unary minus chains, floor/ceiling/round, compound expressions, literal operand forms, node-set, boolean and string operands of the binary operators and of unary minus (node-sets delivered by reverse axes, ancestor steps and caller-ordered variables; boolean functions, variables and comparisons; numeric and non-numeric strings) (number() of a node-set is that of its first node in document order), and sum()/count() over nodes with fractional, negative, padded, non-numeric and out-of-range (+-Infinity, underflowing) numerals (also delivered by a reverse axis); results compared NaN-aware with Go float64 arithmetic (math.Mod for mod). Any error from these operations is a violation.",
+     "Generated search: pairs of doubles (rapid.Float64 mixed with a boundary pool: non-integers, negatives, zeros, |x|<1, |x|>2^63, ties, NaN, infinities) under + - * div mod, unary minus chains, floor/ceiling/round, compound expressions, literal operand forms, node-set, boolean and string operands of the binary operators and of unary minus (node-sets delivered by reverse axes, ancestor steps and caller-ordered variables; boolean functions, variables and comparisons; numeric and non-numeric strings) (number() of a node-set is that of its first node in document order), and sum()/count() over nodes with fractional, negative, padded, non-numeric and out-of-range (+-Infinity, underflowing) numerals (also delivered by a reverse axis; occasionally 255-2049 nodes whose last ones decide the sum; element text split around comments and processing instructions; numerals with 40-60 digits); results compared NaN-aware with Go float64 arithmetic (math.Mod for mod). Any error from these operations is a violation.",
      EVAL_NOTE + " Sums whose terms are not exactly representable are discarded (addition order is not fixed by the property). The sign of a zero result is only observed through a literal zero divisor.",
      "5.6",
      "cases = (operation, operand values). Non-trivial = an operand is not an integer-valued finite double (fraction, huge, zero, NaN, infinity) or a rounding tie; distinct by (operation class, operand values).")
@@ -75,13 +80,13 @@ prop("C07", True,
      "cases = (function, argument values). Non-trivial = an argument has a multi-byte character, or the translate map overlaps/repeats/differs in length, or there are inner whitespace runs, or a bound is non-integral/NaN/infinite; distinct by (function, arguments).")
 prop("C08", True,
      "property-based testing (rapid) + native coverage-guided fuzzing (FuzzC08, thorough tier): typed ASTs rendered under five styles and evaluated against the AST's reference value; invalid-by-construction mutations must be rejected; arbitrary strings judged by an independent strict/lenient recogniser sandwich with reference evaluation of the strictly valid ones",
-     "Generated search: operator-heavy typed ASTs (all binary operators over operands of all types, same- and mixed-precedence chains, unary minus chains, unions, keyword-spelled names, names with '-', '.', digits) are rendered with minimal parentheses, redundant parentheses, arbitrary legal white space, abbreviated steps and all three combined; every rendering must compile and evaluate to the reference value of the AST on a generated document with distinguishable operands (so wrong precedence, associativity, token boundaries or dropped sub-expressions change the value). Token-level mutations that cannot yield an XPath expression (15 families: unbalanced brackets, dangling/leading/doubled/stray operators, empty predicates/parentheses, junk suffixes, illegal characters, '$ name', bad axes, missing/doubled commas, a comma next to a parenthesis of an argument list, numbers, unterminated literals) must make BuildExpr return an error. Token soup, damaged expressions and (thorough) coverage-guided fuzz inputs are judged by the harness's own recursive-descent parser in two modes: strictly valid => accepted, and evaluated to the parsed AST's reference value when the reference can evaluate it; accepted => leniently valid.",
+     "Generated search: operator-heavy typed ASTs (all binary operators over operands of all types, same- and mixed-precedence chains, unary minus chains, unions, keyword-spelled names, names with '-', '.', digits) are rendered with minimal parentheses, redundant parentheses, arbitrary legal white space, abbreviated steps and all three combined, occasionally inside 60-150 pairs of parentheses; every rendering must compile and evaluate to the reference value of the AST on a generated document with distinguishable operands (so wrong precedence, associativity, token boundaries or dropped sub-expressions change the value). Token-level mutations that cannot yield an XPath expression (16 families: invisible non-white-space characters (byte order mark, zero-width space, soft hyphen, NUL) before or after the expression; unbalanced brackets, dangling/leading/doubled/stray operators, empty predicates/parentheses, junk suffixes, illegal characters, '$ name', bad axes, missing/doubled commas, a comma next to a parenthesis of an argument list, numbers, unterminated literals) must make BuildExpr return an error. Token soup, damaged expressions and (thorough) coverage-guided fuzz inputs are judged by the harness's own recursive-descent parser in two modes: strictly valid => accepted, and evaluated to the parsed AST's reference value when the reference can evaluate it; accepted => leniently valid.",
      EVAL_NOTE + " The grammar-level known findings (see known_findings.json) are excluded by construction, by the counted '/*' feature test, or fall between the strict and the lenient recogniser (counted, not judged).",
      "5.8",
      "cases = (AST, five renderings, document), mutated strings and arbitrary strings (sandwich). Non-trivial positives = >= 2 binary operators of different precedence or >= 2 of the same, or a keyword-spelled name, or a minus adjacent to a name; negatives: every mutated string; distinct by text.")
 prop("C09", True,
      "property-based testing (rapid): abstract documents serialised under generated choices, parsed by ReadXml and walked in parallel with the model; targeted malformations must return an error",
-     "Generated search: abstract documents are rendered as XML text under drawn serialisation choices (prefixes, default namespace with undeclaration and rebinding, declaration order, quote style, character/entity references, text split into up to four plain/CDATA pieces with empty CDATA sections before, between and after them, XML declaration with UTF-8 and five 8-bit/ASCII charsets encoded with x/text/charmap, DOCTYPE, prolog/epilog comments and PIs, top-level white space, empty-tag forms); the cursor tree must equal the model (elements, attributes without declarations, merged text, comments, PIs, one namespace node per in-scope binding incl. xml, each owned by its element). Eight families of malformation (mismatched/missing end tag, truncation, undefined entity, invalid character/encoding, unquoted attribute, unknown charset, doubled '<') must yield a non-nil error.",
+     "Generated search: abstract documents are rendered as XML text under drawn serialisation choices (prefixes, default namespace with undeclaration and rebinding, declaration order, quote style, character/entity references, text split into up to four plain/CDATA pieces with empty CDATA sections before, between and after them, XML declaration with UTF-8 and five 8-bit/ASCII charsets encoded with x/text/charmap, DOCTYPE, prolog/epilog comments and PIs, top-level white space, empty-tag forms); the cursor tree must equal the model (elements, attributes without declarations, merged text, comments, PIs, one namespace node per in-scope binding incl. xml, each owned by its element). A quarter of the documents are read just after a malformed one (a failing call must not change the next), and every document reaches ReadXml through one of seven io.Readers chosen by its content (seekable at offset 0 or behind a foreign prefix, data returned together with io.EOF, one byte or half the buffer per Read, no optional methods). Eight families of malformation (mismatched/missing end tag, truncation, undefined entity, invalid character/encoding, unquoted attribute, unknown charset, doubled '<') must yield a non-nil error.",
      "Inputs stay inside what encoding/xml is documented to handle (no internal DTD subset, no literal tab/newline in attribute values, no unbound prefixes). Only error classes encoding/xml detects are demanded.",
      "5.9",
      "cases = (abstract document, serialisation) and malformed byte strings. Non-trivial = the document declares a prefix or default namespace and its serialisation uses at least one of CDATA, a reference, a non-UTF-8 encoding, an XML declaration, a DOCTYPE, a prolog/epilog node, default-namespace undeclaration, or overrides an inherited prefix; distinct by the serialised bytes.")
@@ -97,19 +102,19 @@ prop("C12", True,
      "cases = (document, context node, call). Non-trivial = context node is not a no-namespace element, or the result is a {uri}local name, or an error is required; for lang: every (declared tag, queried tag, context kind) relation; distinct by those tuples.")
 prop("C13", True,
      "stateful property-based testing (rapid): generated histories of Exec/re-Exec/sub-slice/rebuild/Unmarshal/caller-side edits over shared trees (two documents), compiled expressions, binding maps and aliased slices, with snapshot invariants after every step",
-     "Generated search: histories of 4-25 operations over one or two documents (the second one of the same shape with other values, or unrelated), 3-6 reused compiled expressions (unions, paths, self steps and predicates over $v/$w, absolute paths inside predicates that depend on variables, prefixed variables and name tests) and bindings that vary between the operations (two namespace maps with the prefixes swapped, two sets of variable values, a prefix bound for one query only; passed either as caller-owned maps or through the With* option functions only); results are held as caller slices, sub-sliced with spare capacity, bound again as $v and $w (also the same slice twice). After every step the harness compares a deep snapshot of the tree (pointer identity, Pos, kind, names, values, list sizes, parents), every held slice including its backing array up to cap, and the binding maps; re-executions and freshly rebuilt expressions must reproduce the recorded result exactly, a namespaced variable must have the value bound under the query's own bindings, and a prefix bound only for an earlier query must be unbound. The caller also edits result slices it holds (reverse, in-place filter, overwrite): later queries must not notice; expressions that render names (name() of namespaced nodes while two prefixes are bound to one URI) or use the implicit xml prefix run on caller-owned maps; and Unmarshal into four distinct struct types that share their name and field names must fill each from its own tags whatever was unmarshaled before.",
+     "Generated search: histories of 4-25 operations over one or two documents (the second one of the same shape with other values, or unrelated), 3-6 reused compiled expressions (unions, paths, self steps and predicates over $v/$w, absolute paths inside predicates that depend on variables, prefixed variables and name tests) and bindings that vary between the operations (two namespace maps with the prefixes swapped, two sets of variable values, a prefix bound for one query only; passed either as caller-owned maps or through the With* option functions only); results are held as caller slices, sub-sliced with spare capacity, bound again as $v and $w (also the same slice twice). After every step the harness compares a deep snapshot of the tree (pointer identity, Pos, kind, names, values, list sizes, parents), every held slice including its backing array up to cap, and the binding maps; re-executions and freshly rebuilt expressions must reproduce the recorded result exactly, a namespaced variable must have the value bound under the query's own bindings, and a prefix bound only for an earlier query must be unbound. A user function hands out a node-set the caller still holds (h:held()[1], h:held() | //a), rejected compilations happen in between, held results are kept as caller-ordered copies with spare capacity. The caller also edits result slices it holds (reverse, in-place filter, overwrite): later queries must not notice; expressions that render names (name() of namespaced nodes while two prefixes are bound to one URI) or use the implicit xml prefix run on caller-owned maps; and Unmarshal into four distinct struct types that share their name and field names must fill each from its own tags whatever was unmarshaled before.",
      "Results are compared by value and node identity, not by slice identity (returning the caller's slice unchanged is allowed).",
      "5.13",
      "cases = histories. Non-trivial = the history re-executes an earlier triple after other queries ran and some query bound a held slice as $v/$w; distinct by (expressions, operations, document).")
 prop("C16", True,
      "property-based testing (rapid): JSON values mapped directly to the documented tree and compared by parallel walk; truncations and token mutations must return an error",
-     "Generated search: JSON values (objects with duplicate/empty/odd keys, arrays, nested containers up to depth 9 and occasionally wrapped in 60-140 further containers with members following the deep one, empty containers, strings and keys that spell structural characters ('{', ']', ',') or look like qualified names, attributes or node tests ('dc:title', 'xmlns:p', '@id', 'text()'), strings with escapes and surrogate pairs, numerals incl. -0, exponents, >2^63, subnormal; 1-3 top-level values) rendered with drawn whitespace and escape spellings; the cursor tree must equal the README mapping computed from the value (not from the text): #obj/#arr, member elements in source order, one text node per scalar, siblings never merged; number texts must read back to the same double with minimal digits. Strict prefixes, dropped structural characters and junk insertions that make the text invalid must yield a non-nil error.",
+     "Generated search: JSON values (objects with duplicate/empty/odd keys, arrays, nested containers up to depth 9 and occasionally wrapped in 60-140 further containers with members following the deep one, empty containers, strings and keys that spell structural characters ('{', ']', ',') or look like qualified names, attributes or node tests ('dc:title', 'xmlns:p', '@id', 'text()'), strings with escapes and surrogate pairs, numerals incl. -0, exponents, >2^63, subnormal; 1-3 top-level values) rendered with drawn whitespace and escape spellings; the cursor tree must equal the README mapping computed from the value (not from the text): #obj/#arr, member elements in source order, one text node per scalar, siblings never merged; number texts must read back to the same double with minimal digits. Strict prefixes, dropped structural characters and junk insertions that make the text invalid must yield a non-nil error. Texts reach ReadJson through seven kinds of io.Reader (see C09), a quarter of them right after a malformed text.",
      "encoding/json's json.Valid / Decoder are used only to discard mutations that happen to stay valid.",
      "5.16",
      "cases = (JSON value(s), rendering) and malformed texts. Non-trivial = depth >= 3 with both container kinds, or an empty container after a key, or a scalar following a container among siblings; malformed: every text; distinct by text.")
 prop("C17", True,
      "property-based testing (rapid): generated tag soup parsed by ReadHtml and compared with an independent recursion over html.Parse's DOM",
-     "Generated search: a doctype followed by random open/close/stray-close tags over a vocabulary chosen to trigger the tree builder's special cases (tables, select, template, script/style/textarea/title, void elements, svg/math/foreignObject, prefixed tag names), text (with character references incl. referenced carriage returns, NUL and out-of-range references), comments (also after </body>/</html>), attributes incl. duplicates, xmlns, xmlns:x, x:y and foreign-content attributes; the cursor tree must equal the harness's own plain walk of html.Parse's DOM (local names, attributes minus xmlns declarations with prefixes stripped, text, comments, everything in no namespace).",
+     "Generated search: a doctype followed by random open/close/stray-close tags over a vocabulary chosen to trigger the tree builder's special cases (tables, select, template, script/style/textarea/title, void elements, svg/math/foreignObject, prefixed tag names), text (with character references incl. referenced carriage returns, NUL and out-of-range references), comments (also after </body>/</html>), attributes incl. duplicates, xmlns, xmlns:x, x:y and foreign-content attributes; documents reach ReadHtml through seven kinds of io.Reader (see C09), a quarter right after another document; the cursor tree must equal the harness's own plain walk of html.Parse's DOM (local names, attributes minus xmlns declarations with prefixes stripped, text, comments, everything in no namespace).",
      "golang.org/x/net/html (the version /repo's go.mod pins) defines the expected DOM; names with more than one colon are discarded.",
      "5.17",
      "cases = HTML texts. Non-trivial = the DOM has >= 8 nodes and at least one of: childless last child, sibling after a depth >= 3 subtree, node after </html>, implied elements, foreign content, template; distinct by text.")
@@ -121,25 +126,25 @@ prop("C18", True,
 
 prop("C14", True,
      "property-based stress testing (rapid) under the Go race detector: generated concurrent Exec programs on shared tree/expressions/bindings vs. their serial results; concurrent Unmarshal into struct types nobody used before; race-built CLI -c N vs. per-file blocks",
-     "Generated search: one document, 2-6 compiled expressions (weighted toward unions, paths and predicates over a shared node-set variable bound in caller order), one shared set of binding maps; 2-16 goroutines released by a barrier each run a drawn program of Exec calls for 1-4 rounds (half of the cases on freshly built expressions that were never executed serially; the expression pool calls every builtin with differing arguments and holds deeply nested and very long expressions); every concurrent result must equal the serial result computed beforehand; 2-16 goroutines Unmarshal the same nodes into a struct type created for the case (reflect.StructOf, 1-9 tagged fields, so anything kept per type is cold) and must get what the serial calls made afterwards get, and the test binary is built with -race (GORACE=halt_on_error: the first report ends the shard and the running case becomes the replay file). CLI: the race-built command runs over generated trees of 10-60 XML/JSON/HTML files (some malformed) plus 2-5 files whose output block is tens of kilobytes, with -c 2/4/16; stdout must be a sequence of exactly the per-file blocks (each obtained by running the tool on that file alone), intact and contiguous, in any order.",
+     "Generated search: one document, 2-6 compiled expressions (weighted toward unions, paths and predicates over a shared node-set variable bound in caller order), one shared set of binding maps; 2-16 goroutines released by a barrier each run a drawn program of Exec calls for 1-4 rounds (half of the cases on freshly built expressions that were never executed serially; the expression pool calls every builtin with differing arguments and holds deeply nested and very long expressions); every concurrent result must equal the serial result computed beforehand; 2-16 goroutines Unmarshal the same nodes into a struct type created for the case (reflect.StructOf, 1-9 tagged fields, so anything kept per type is cold) and must get what the serial calls made afterwards get, and the test binary is built with -race (GORACE=halt_on_error: the first report ends the shard and the running case becomes the replay file). Two to twelve goroutines parse 2-8 XML/HTML/JSON documents (some malformed) at once and must get the trees they get alone. Half of the library cases use a copy of the document that no query has touched (lazily built state in the tree). CLI: the race-built command, with -u, -e, -s, -v, -t in the mix, runs over trees of 1-3 files (fewer than workers) or over generated trees of 10-60 XML/JSON/HTML files (some malformed) plus 2-5 files whose output block is tens of kilobytes, with -c 2/4/16; stdout must be a sequence of exactly the per-file blocks (each obtained by running the tool on that file alone), intact and contiguous, in any order.",
      "Coverage of interleavings is probabilistic: this family does not own the Go scheduler. The race detector flags unsynchronised conflicting accesses that execute in a run whether or not the bad interleaving happens. A failing schedule is not replayable as such; the replay re-runs the case 100 times under -race.",
      "5.14",
      "cases = concurrent programs (document, expressions, shared $v, goroutines x operations x rounds) and CLI file trees. Non-trivial = >= 2 goroutines execute an expression over the shared node-set variable of >= 2 nodes; CLI: >= 8 files with -a or -m (multi-line blocks); distinct by (expressions, shared variable, goroutine count, document) resp. (flags, tree).")
 prop("C15", True,
      "property-based testing (rapid) + native coverage-guided fuzzing (go test -fuzz, thorough tier): recover-wrapped entry points over valid, mutated and raw expressions and documents",
-     "Generated search: expression strings from six sources (rendered typed ASTs, ill-typed ASTs, invalid-by-construction token mutations, token soup, raw Unicode, every string function over a variable holding arbitrary - also invalid UTF-8 - bytes with boundary positions) with boundary-value numeric and Unicode variables, nil variable values and hostile constants, executed from the root, an element and an attribute of a fixed or generated document; documents from three sources (valid XML/JSON/HTML serialisations, byte-level mutations, raw bytes) through ReadXml/ReadHtml/ReadJson. Every call runs under recover and a generous deadline: a panic, a nil result with a nil error, an unusable tree/result, an 'xpath query panic' error on a well-typed query, or a call that does not terminate twice within 60 s is a violation. Unmarshal is driven with thirty kinds of unsupported target (error, never a panic). Thorough adds five native fuzz targets (FuzzExpr, FuzzXml, FuzzHtml, FuzzJson, FuzzPair) with the same oracle inside the target.",
+     "Generated search: expression strings from six sources (rendered typed ASTs, ill-typed ASTs, invalid-by-construction token mutations, token soup, raw Unicode, every string function over a variable holding arbitrary - also invalid UTF-8 - bytes with boundary positions) with boundary-value numeric and Unicode variables, nil variable values and hostile constants, executed from the root, an element and an attribute of a fixed or generated document and from three user-written Cursor types over it; ReadXml also runs with seven decoder option variants (Strict off, CharsetReader nil/failing/identity, entities, AutoClose, DefaultSpace); Unmarshal also into same-named struct types with different numbers of fields; documents from three sources (valid XML/JSON/HTML serialisations, byte-level mutations, raw bytes) through ReadXml/ReadHtml/ReadJson. Every call runs under recover and a generous deadline: a panic, a nil result with a nil error, an unusable tree/result, an 'xpath query panic' error on a well-typed query, or a call that does not terminate twice within 60 s is a violation. Unmarshal is driven with thirty kinds of unsupported target (error, never a panic). Thorough adds five native fuzz targets (FuzzExpr, FuzzXml, FuzzHtml, FuzzJson, FuzzPair) with the same oracle inside the target.",
      "Process aborts (fatal errors, stack exhaustion) are seen as a shard dying without a report (exit 2 with the log). Inputs are limited to 64 KiB (documents) and 512 bytes (expressions: parse time grows quadratically with nesting depth, and the fuzzing engine kills a worker whose input runs for 10 s) in the fuzz targets.",
      "5.15",
      "cases = inputs to BuildExpr/Exec/Read*. Non-trivial = expression of >= 3 tokens or document of >= 8 bytes; distinct by input (and variable values).")
 prop("C19", True,
      "property-based testing (rapid): target types built at run time with reflect.StructOf, expected field values recomputed from separate Exec calls and plain conversions, compared deeply",
-     "Generated search: target types built with reflect.StructOf (fields of kind string, bool, all int/uint widths, float32/64, slices of scalars, nested structs, slices of structs and of pointers to structs, pointer depth 0-3 on any tagged field, untagged fields holding sentinels - scalars and untagged named, pointed-to and embedded structs whose own fields carry tags -, tagged pointer fields that point to caller-owned values before the call; slice fields whose tag yields a string, number or boolean), passed as *T, **T, ***T and *[]E with node-sets of size 0/1/n and with 0-6 bindings (variables, a namespace, user functions incl. one shadowing concat) that the tags use; every tagged field must equal its tag's result evaluated from the struct's node and converted per kind, slices one element per node in result order, untagged fields untouched all the way down, pointer fields freshly allocated (the value a field pointed to before the call is unchanged); wrong-shaped results must give an error. Thirty unsupported targets (also complex, uintptr, unsafe.Pointer, func and chan fields, slices of complex and of maps) (nil, non-pointer struct, nil pointer, pointer to nil pointer, map, array, chan, func, 2-D slice, unexported tagged fields of string, struct, slice and pointer kind and an embedded unexported struct, interface/map/array fields, *int, string, nil inner pointers) must give an error and never panic.",
+     "Generated search: target types built with reflect.StructOf (fields of kind string, bool, all int/uint widths, float32/64, slices of scalars, nested structs, slices of structs and of pointers to structs, pointer depth 0-3 on any tagged field, untagged fields holding sentinels - scalars and untagged named, pointed-to and embedded structs whose own fields carry tags -, tagged pointer fields that point to caller-owned values before the call; slice fields whose tag yields a string, number or boolean), passed as *T, **T, ***T and *[]E with node-sets of size 0/1/n, exported field names of two-, three- and four-byte upper-case letters, a recursive target type over the whole (possibly 130 levels deep) document, same-named distinct struct types, and with 0-7 bindings (variables, a namespace, user functions incl. one shadowing concat) that the tags use; every tagged field must equal its tag's result evaluated from the struct's node and converted per kind, slices one element per node in result order, untagged fields untouched all the way down, pointer fields freshly allocated (the value a field pointed to before the call is unchanged); wrong-shaped results must give an error. Thirty unsupported targets (also complex, uintptr, unsafe.Pointer, func and chan fields, slices of complex and of maps) (nil, non-pointer struct, nil pointer, pointer to nil pointer, map, array, chan, func, 2-D slice, unexported tagged fields of string, struct, slice and pointer kind and an embedded unexported struct, interface/map/array fields, *int, string, nil inner pointers) must give an error and never panic.",
      "The tag results come from xsel.Exec itself (the property defines the field value as that result; C18 checks those results against the reference). Numeric results outside the field's range or NaN for integer fields are implementation-defined in Go and not judged.",
      "5.19",
      "cases = (document, select query, target type) and (unsupported target, result). Non-trivial = the target shape has a pointer, a nested struct or a slice of structs/pointers; every unsupported kind; distinct by (type shape, select).")
 prop("C20", True,
      "property-based testing (rapid) of the built command: generated file trees x flag sets x expressions; expected stdout derived through the library API in-process; -m records re-parsed and compared with the selected subtree",
-     "Generated search: temp trees of 1-6 files (XML from the serialiser, JSON, tag soup; nested directories; odd or missing extensions; malformed files; dangling symlinks; missing arguments; stdin) x flags -a -m -n -r -u -t -s -v -e -c 1 in drawn order x 41 expressions (string-length, concat, boolean and a bare predicate over -v values that look like numerals, are blank-padded, empty or contain '='); arguments in drawn order (stdin first, in the middle or last), unusual file names (blanks, colons, quotes, non-ASCII, leading dot) and upper-case extensions; file and directory arguments also spelled with './', doubled or trailing slashes and '..' segments (node-set, string, number, boolean results, every node kind, namespaces and variables from -s/-v); stdout must equal, byte for byte, the records derived through the library for each processed file in walk order (nothing for empty node-sets, first node or one record per node with -a, 'path: ' prefix unless -n/stdin, where path is the path the tool was told or its cleaned form); with -m every selected node yields one line that parses with ReadXml to a tree equal to the selected subtree (expanded names, attributes, text, comments, PIs); every unreadable/unparsable/untyped input must be named on stderr and must not disturb the other files' output.",
+     "Generated search: temp trees of 1-6 files (XML from the serialiser, JSON, tag soup; nested directories; odd or missing extensions; malformed files; dangling symlinks; missing arguments; stdin) x flags -a -m -n -r -u -t -s -v -e -c 1 in drawn order x 41 expressions (string-length, concat, boolean and a bare predicate over -v values that look like numerals, are blank-padded, empty or contain '='); arguments in drawn order (stdin first, in the middle or last), unusual file names (blanks, colons, quotes, '%', non-ASCII, leading dot), symbolic links to regular files, element names that are HTML void elements and upper-case extensions; file and directory arguments also spelled with './', doubled or trailing slashes and '..' segments (node-set, string, number, boolean results, every node kind, namespaces and variables from -s/-v); stdout must equal, byte for byte, the records derived through the library for each processed file in walk order (nothing for empty node-sets, first node or one record per node with -a, 'path: ' prefix unless -n/stdin, where path is the path the tool was told or its cleaned form); with -m every selected node yields one line that parses with ReadXml to a tree equal to the selected subtree (expanded names, attributes, text, comments, PIs); every unreadable/unparsable/untyped input must be named on stderr and must not disturb the other files' output.",
      "The binary is rebuilt from /repo for every run. Attribute/namespace records (CLI's own PI notation) and -m over JSON/HTML trees are only checked for shape/no crash. Tests run as root, so unreadable files are simulated by dangling symlinks and missing paths.",
      "5.20",
      "cases = (file tree, flags, expression). Non-trivial = >= 2 files; distinct by (argv, file names and sizes).")
